@@ -542,3 +542,6 @@ package io
 //@   nopanic
 //@   ensures result != nil && !result.simple && len(result.refer.ref) == 0 && len(result.ref) == 0 && result.reader == nil && result.head == 0 && result.tail == 0 &&
 //@       result.Error == nil && (result.buf == nil || len(result.buf) > 0)
+
+// ---- the scalar decode handlers: one cell per kind, each wired to its own routine (C06, C01) ---
+//@ rule decode_cells prop=C06,C01
